@@ -8,6 +8,7 @@ Local Open Scope N_scope.
 
 (* string literals as code point lists (examples only) *)
 Definition S_ (x : string) : str := map N_of_ascii (list_ascii_of_string x).
+Arguments S_ x%string.
 Notation "'s!' x" := (S_ x) (at level 0, x at level 0).
 
 (* ---- building derivations on concrete data ---- *)
